@@ -24,10 +24,31 @@ ASSUMPTIONS = ["str()/int()/float() conversions of attribute text are Python's (
 DATE = "2024-02-03T04:05:06"
 
 
+def _long(t, k=0):
+    """a float that needs all 17 significant digits to be written (tagged number in, tagged number out)"""
+    x = core.bits_float(t[1]) if t[0] == "f" else float(t[1])
+    return ["f", core.float_bits(x * 1.0000001234567891 + k * 0.000123456789)]
+
+
+def long_digits(rng, cal):
+    """calibrator with coefficients / spline points that do not survive a short decimal rendering"""
+    if cal is None or rng.random() < 0.5:
+        return cal
+    if cal[0] == "poly":
+        return ["poly", [[_long(a), n] for a, n in cal[1]]]
+    return ["spline", cal[1], cal[2], [[_long(r, i), _long(c)] for i, (r, c) in enumerate(cal[3])]]
+
+
 def decorate(rng, doc):
-    """descriptions, units, time types with epoch / offsetFrom, multi-byte strings"""
+    """descriptions, units, time types with epoch / offsetFrom, multi-byte strings, many-digit calibrator numbers"""
     d = copy.deepcopy(doc)
     for p in d["params"].values():
+        e = p["type"]["enc"]
+        if e["t"] == "num":
+            e["default"] = long_digits(rng, e.get("default"))
+            if e.get("context"):
+                for cx in e["context"]:
+                    cx["cal"] = long_digits(rng, cx["cal"])
         if rng.random() < 0.3:
             p["short"] = rng.choice(["short text", "a & b < c", "x"])
         if rng.random() < 0.2:
